@@ -297,6 +297,19 @@ class Verifier(Engine):
         for k in classes.table().values():
             st.pc.append(z3.Function('$isinst_' + k.__name__, I, B)(r) == z3.BoolVal(issubclass(cls, k)))
         st.pc.append(z3.Function('$exact_' + name, I, B)(r))
+        if hasattr(cls, '_fields') and issubclass(cls, tuple):
+            # NamedTuple: positional / keyword fields, stored as fields of the new object
+            fields_ = list(cls._fields)
+            vals = dict(zip(fields_, args))
+            vals.update(kwargs)
+            if set(vals) != set(fields_):
+                raise OutOfSubset('namedtuple %s constructed with fields %r' % (name, sorted(vals)))
+            for f_ in fields_:
+                fk = self.field_kind(name, f_)
+                if fk is None:
+                    raise OutOfSubset('field %s of %s has no declared kind' % (f_, name))
+                self.write_field(st, r, self.storage(name, f_), fk, self.coerce(vals[f_], fk, st))
+            return ref
         q = classes.qualname(name, '__init__')
         if q is None or q.endswith('object.__init__'):
             return ref
@@ -363,6 +376,17 @@ class Verifier(Engine):
             return v
         if isinstance(v, VOpt) and not kind.startswith('opt:'):
             return self.coerce(v.val, kind, st)       # the path condition decides whether it can be None here
+        if kind.startswith('tuple:') and isinstance(v, VTuple):
+            from pv.values import split_kinds
+            ks = []
+            rest = kind[6:]
+            # element kinds are separated by commas; 'ref:X' and 'list:..' contain no commas
+            ks = [k.strip() for k in rest.split(',')]
+            if len(ks) == len(v.items):
+                return VTuple([self.coerce(x, k, st) for x, k in zip(v.items, ks)])
+            return v
+        if kind == 'pos' and isinstance(v, VTuple):
+            return v
         if kind.startswith('ref') and isinstance(v, VRef):
             want = kind[4:] or None
             if want and (v.cls is None or not classes.is_subclass(v.cls, want)):
@@ -767,6 +791,16 @@ class Verifier(Engine):
                 st.pc.append(z3.ForAll([k], z3.Select(new, k) == z3.If(k < i, z3.Select(old, k), z3.Select(old, k + 1))))
                 st.lset_all(recv.t, new, recv.ek)
                 st.wr('$len', recv.t, n - 1)
+            elif isinstance(t, ast.Subscript) and isinstance(t.slice, ast.Slice) and t.slice.upper is None and t.slice.step is None:
+                # del lst[i:]  -- truncation
+                recv = self.ev.ev(st, t.value)
+                lo = self.ev.ev(st, t.slice.lower) if t.slice.lower is not None else VInt(0)
+                if not isinstance(recv, VList):
+                    raise OutOfSubset('del slice on %s' % kind_of(recv))
+                n = st.llen(recv.t)
+                a = self.clamp(self.as_int(lo), n)
+                outs += self.split_pend(st)
+                st.wr('$len', recv.t, a)
             else:
                 raise OutOfSubset('del target')
         return outs + [Outcome('ok', st)]
